@@ -263,6 +263,12 @@ class Functor(pg_object.Object, utils.Functor):
     for relative_path, update in field_updates.items():
       assert relative_path
       if len(relative_path) != 1:
+        # A change inside a container argument (e.g. `f.rebind({'opts.verbose':
+        # True})`) binds that argument: it has to reach the wrapped function.
+        arg_name = str(relative_path.keys[0])
+        self._default_args.discard(arg_name)
+        self._non_default_args.add(arg_name)
+        self._specified_args.add(arg_name)
         continue
       arg_name = str(relative_path)
       if update.field.default_value == update.new_value:
